@@ -521,7 +521,18 @@ impl Gen {
                 dup = true;
                 Some(*rng.pick(&resend))
             } else {
-                if inflight >= 8 && !hostile {
+                // the broker uses the window the client asked for in its CONNECT, all of it
+                let window = v
+                    .world
+                    .conns
+                    .last()
+                    .and_then(|c| c.out.packets.first())
+                    .and_then(|p| match &p.pkt {
+                        crate::refcodec::CPacket::Connect { props, .. } => props.iter().find_map(|p| if let Prop::ReceiveMaximum(m) = p { Some(*m as usize) } else { None }),
+                        _ => None,
+                    })
+                    .unwrap_or(8);
+                if inflight >= window && !hostile {
                     return None;
                 }
                 let mut pid = self.next_spid;
